@@ -237,8 +237,8 @@ def run(ctx):
     iep = [cb for c in vq.calls_to(r"Iterator::any$") for cb in closure_bodies(fx, c) if tree_calls(cb, r"Arg::is_exclusive_set$")]
     res.check(bool(iep), "R3.5", "is_exclusive_present", vq.where(), "is_exclusive_present = any explicitly present arg is exclusive", "is_exclusive_present no longer derived from Arg::is_exclusive_set")
     mo = fx.body("clap_builder::parser::validator::Validator::is_missing_required_ok")
-    gcs = mo.calls_to(r"Conflicts::gather_conflicts$")
-    res.check(len(gcs) >= 2 and not mo.calls_to(r"ArgMatcher::"), "R3.5", "is_missing_required_ok", mo.where(), "exemption = a present arg conflicts with the arg or one of its groups", "is_missing_required_ok consults something other than the conflicts of explicitly present args")
+    gcs = tree_calls(mo, r"Conflicts::gather_conflicts$")     # the group loop may be a closure (`.any(|group| ..)`)
+    res.check(len(gcs) >= 2 and not tree_calls(mo, r"ArgMatcher::"), "R3.5", "is_missing_required_ok", mo.where(), "exemption = a present arg conflicts with the arg or one of its groups", "is_missing_required_ok consults something other than the conflicts of explicitly present args")
     # validate_exclusive: counts and candidates over explicit args (R3.1) and raises on exclusive && count > 1
     ve = fx.body("clap_builder::parser::validator::Validator::validate_exclusive")
     okx = bool(tree_calls(ve, r"Arg::is_exclusive_set$")) and bool(ve.calls_to(r"error::Error::argument_conflict$") or tree_calls(ve, r"error::Error::argument_conflict$"))
